@@ -73,6 +73,28 @@ def repo_frame(exc: BaseException) -> str:
     return "?"
 
 
+def origin_is_repo(exc: BaseException) -> bool:
+    """Was the exception raised while code of the package under test was
+    executing (rather than inside the harness)?  Decided by the innermost
+    frame that belongs to either of the two."""
+    tb = traceback.extract_tb(exc.__traceback__)
+    for fr in reversed(tb):
+        if "/verif/" in fr.filename:
+            return False
+        if "stereomolgraph" in fr.filename:
+            return True
+    return False
+
+
+def as_violation(pid: str, exc: BaseException):
+    """An exception that escaped from the package under test outside an
+    explicit guard is a failure of the property on that case, not a harness
+    error."""
+    return Violation(
+        f"{pid}/unguarded/raises-{type(exc).__name__}@{repo_frame(exc)}",
+        f"{type(exc).__name__}: {exc}")
+
+
 class guard:
     """Context manager around calls into the code under test: an exception
     there is a failure of the property (sig = prefix + exception kind +
@@ -273,6 +295,16 @@ class Ctx:
         self.muted.add(sig)
         self.violations.append({"sig": sig, "msg": msg, "case": case})
 
+    def fail_exc(self, e: BaseException, case):
+        """enumeration loops: an exception that escaped from the package
+        under test is a violation on that case; anything else propagates"""
+        if isinstance(e, Violation):
+            return self.fail_now(e, case)
+        if isinstance(e, (HarnessError, KeyboardInterrupt, MemoryError)) \
+                or not origin_is_repo(e):
+            raise e
+        return self.fail_now(as_violation(self.pid, e), case)
+
     def fail_now(self, v: Violation, case):
         """For enumerations (no shrinking): record unless known / muted."""
         if v.case is not None:
@@ -325,6 +357,14 @@ class Ctx:
                 except Violation as v:
                     if ctx.handle(v, case):
                         raise
+                except (HarnessError, KeyboardInterrupt, MemoryError):
+                    raise
+                except Exception as e:
+                    if not origin_is_repo(e):
+                        raise
+                    v = as_violation(ctx.pid, e)
+                    if ctx.handle(v, case):
+                        raise v from e
 
             try:
                 test()
@@ -354,6 +394,12 @@ class Ctx:
                 if v.sig == sig:
                     last[0] = v.msg
                     return True
+            except HarnessError:
+                return False
+            except Exception as e:
+                if origin_is_repo(e) and as_violation(self.pid, e).sig == sig:
+                    last[0] = f"{type(e).__name__}: {e}"
+                    return True
             return False
 
         try:
@@ -369,6 +415,12 @@ class Ctx:
             check(case)
         except Violation as v:
             self.fail_now(v, case)
+        except HarnessError:
+            raise
+        except Exception as e:
+            if not origin_is_repo(e):
+                raise
+            self.fail_now(as_violation(self.pid, e), case)
 
     # ---- result ----------------------------------------------------------
     def result(self):
@@ -588,7 +640,14 @@ def main_replay(pid, path):
         case = case["case"]
     ctx = Ctx(pid, "quick", 0, replay=True)
     try:
-        mod.check_case(ctx, case)
+        try:
+            mod.check_case(ctx, case)
+        except (Violation, HarnessError):
+            raise
+        except Exception as e:
+            if not origin_is_repo(e):
+                raise
+            raise as_violation(pid, e) from e
     except Violation as v:
         k = match_known(ctx.known, v.sig)
         if k is not None:
